@@ -321,6 +321,8 @@ def run(cx, tier='quick'):
                         'rustc name resolution: a path starting with `::core` is not shadowable; a bare identifier is']
     rep.not_decided += ['collisions between a user-supplied method path and a template local of the same name',
                         'shadowing of primitive type names (u8, bool, ...)']
+    from .binders import check_binder_injectivity
+    check_binder_injectivity(cx, rep, None)
     return rep
 
 
